@@ -33,6 +33,12 @@ var c07Shapes = []c07Shape{
 	{"selector", "$x.f", false},
 	{"call-fun", "$x()", false},
 	{"decl-list", "func $x() {}; func $y() {}", true},
+	{"expr-string-call", "probeS($x)", false},
+	{"range-key-value", "for $x, $y := range $_ { $*_ }", true},
+	{"type-switch-guard", "switch $x := $y.(type) { $*_ }", true},
+	{"multi-assign", "$x, $y = $_", true},
+	{"generic-call", "gen[$x]($y)", true},
+	{"key-value", "$x: $y", true},
 }
 
 // filters over $x (and $y where the shape has it); `%s` is the variable name
@@ -67,6 +73,10 @@ func isSmall(ctx *dsl.VarFilterContext) bool {
 	return ctx.SizeOf(ctx.Type) <= 8
 }
 
+func isErr(ctx *dsl.VarFilterContext) bool {
+	return types.Identical(ctx.Type, ctx.GetType("error")) || types.Implements(ctx.Type, ctx.GetInterface("error"))
+}
+
 func hasElem(ctx *dsl.VarFilterContext) bool {
 	s := types.AsSlice(ctx.Type.Underlying())
 	return s != nil && types.Identical(s.Elem(), ctx.GetType("int"))
@@ -91,6 +101,9 @@ func probe(...interface{}) int  { return 0 }
 func probe2(a, b interface{})   {}
 func probeN(xs ...interface{})  {}
 func sink(int)                  {}
+func probeS(...interface{}) string { return "" }
+func gen[T any](v T) T          { return v }
+func pair() (int, error)        { return 0, nil }
 func mk(int) func()             { return nil }
 func noResults()                { var _ []int; var _ T }
 func withResults() (int, error) { return 0, nil }
@@ -149,12 +162,67 @@ func body(x int, s []int, t T, p *T, i I, e error) (r int) {
 	_ = map[int]string{probe(4): "v"}
 	_ = s[probe(5)]
 	variadic(probe(6), probe(7))
+	var buf []byte
+	buf = append(buf, probeS(1)...)
+	buf = append(buf, probeS(x)[0])
+	_ = append([]string{}, probeS(2))
+	for k, v := range s {
+		probe(k, v)
+	}
+	for i := range s {
+		probe(i)
+	}
+	switch v := i.(type) {
+	case nil:
+		probe(v)
+	case I:
+		probe(v)
+	}
+	var n int
+	n, _ = pair()
+	_, e = pair()
+	_ = gen[int](n)
+	_ = gen[[]string](nil)
+	_ = map[string]int{"k": 1}
+	_ = [...]int{2: probe(8)}
+	_ = T{a: probe(9)}
 	sink(probe(1))
 	x = probe(3)
 	var _ int = probe(4)
 	return probe(5) + v1 + len(v2)
 }
 `
+
+// predeclared identifiers shadowed by the package: filters that name `error`, `int32`, `any` must
+// still not crash when a capture has the package's own type of that name
+const c07Shadow = `package q
+
+type error struct{ msg string }
+type int32 string
+type any = int
+
+func (error) Error() string { return "" }
+
+func probe(...interface{}) int { return 0 }
+func probe2(a, b interface{})   {}
+
+func g(e error, i int32, a any, p *error) {
+	probe(e)
+	probe(i)
+	probe(a)
+	probe(p)
+	probe(error{})
+	probe(int32("x"))
+	probe2(e, i)
+	probe2(a, e)
+}
+`
+
+var c07ShadowFilters = []string{
+	`m["x"].Type.Is("error")`, `m["x"].Type.Is("int32")`, `m["x"].Type.Is("any")`, `m["x"].Type.Is("*error")`, `m["x"].Type.Underlying().Is("string")`,
+	`m["x"].Type.Implements("error")`, `m["x"].Type.ConvertibleTo("error")`, `m["x"].Type.AssignableTo("error")`, `m["x"].Type.OfKind("integer")`,
+	`m["x"].Filter(isErr)`, `m["x"].Filter(isSmall)`,
+}
 
 func runC07(c *Ctx) error {
 	res := c.Res
@@ -181,6 +249,11 @@ func runC07(c *Ctx) error {
 		shape  c07Shape
 		filter string
 		action string
+		shadow bool
+	}
+	tShadow, err := hx.ParseTarget("c07shadow.go", c07Shadow)
+	if err != nil {
+		return fmt.Errorf("shadow target: %v", err)
 	}
 	var cells []cell
 	for _, sh := range c07Shapes {
@@ -190,32 +263,42 @@ func runC07(c *Ctx) error {
 			for i := range args {
 				args[i] = "x"
 			}
-			cells = append(cells, cell{sh, fmt.Sprintf(f, args...), `Report("$x|$$")`})
+			cells = append(cells, cell{shape: sh, filter: fmt.Sprintf(f, args...), action: `Report("$x|$$")`})
 			if sh.hasY {
 				for i := range args {
 					args[i] = "y"
 				}
-				cells = append(cells, cell{sh, fmt.Sprintf(f, args...), `Report("$y")`})
+				cells = append(cells, cell{shape: sh, filter: fmt.Sprintf(f, args...), action: `Report("$y")`})
 			}
 		}
 		if sh.hasY {
 			for _, f := range c07PairFilters {
-				cells = append(cells, cell{sh, f, `Report("$x $y")`})
+				cells = append(cells, cell{shape: sh, filter: f, action: `Report("$x $y")`})
 			}
 		}
 		for _, f := range c07RootFilters {
-			cells = append(cells, cell{sh, f, `Report("$$")`})
+			cells = append(cells, cell{shape: sh, filter: f, action: `Report("$$")`})
 		}
 		// payload variants without a filter
-		cells = append(cells, cell{sh, "", `Report("$x").At(m["x"])`})
-		cells = append(cells, cell{sh, "", `Report("r $x").Suggest("$x")`})
-		cells = append(cells, cell{sh, "", `Report("r").At(m["x"]).Suggest("s($x)")`})
-		cells = append(cells, cell{sh, "", `Suggest("$$")`})
+		cells = append(cells, cell{shape: sh, filter: "", action: `Report("$x").At(m["x"])`})
+		cells = append(cells, cell{shape: sh, filter: "", action: `Report("r $x").Suggest("$x")`})
+		cells = append(cells, cell{shape: sh, filter: "", action: `Report("r").At(m["x"]).Suggest("s($x)")`})
+		cells = append(cells, cell{shape: sh, filter: "", action: `Suggest("$$")`})
 		if sh.hasY {
-			cells = append(cells, cell{sh, "", `Report("$y").At(m["y"]).Suggest("$y$x")`})
+			cells = append(cells, cell{shape: sh, filter: "", action: `Report("$y").At(m["y"]).Suggest("$y$x")`})
 		}
 	}
+	for _, f := range c07ShadowFilters {
+		cells = append(cells, cell{shape: c07Shapes[0], filter: f, action: `Report("$x")`, shadow: true})
+	}
+	for _, f := range c07PairFilters {
+		cells = append(cells, cell{shape: c07Shapes[1], filter: f, action: `Report("$x $y")`, shadow: true})
+	}
 	for i, cl := range cells {
+		t := t
+		if cl.shadow {
+			t = tShadow
+		}
 		rule := "\tm.Match(`" + cl.shape.pattern + "`)"
 		if cl.filter != "" {
 			rule += ".Where(" + cl.filter + ")"
@@ -226,7 +309,7 @@ func runC07(c *Ctx) error {
 		src = strings.Replace(src, "import \"github.com/quasilyte/go-ruleguard/dsl\"\n\nimport \"github.com/quasilyte/go-ruleguard/dsl/types\"", "import (\n\t\"github.com/quasilyte/go-ruleguard/dsl\"\n\t\"github.com/quasilyte/go-ruleguard/dsl/types\"\n)", 1)
 		e := ruleguard.NewEngine()
 		lerr := hx.LoadInto(e, "rules.go", src, nil)
-		in := map[string]interface{}{"shape": cl.shape.name, "pattern": cl.shape.pattern, "filter": cl.filter, "action": cl.action}
+		in := map[string]interface{}{"shape": cl.shape.name, "pattern": cl.shape.pattern, "filter": cl.filter, "action": cl.action, "shadowed_predeclared_target": cl.shadow}
 		if lerr != nil {
 			if strings.HasPrefix(lerr.Error(), "PANIC") {
 				f := strings.Fields(lerr.Error())
@@ -247,7 +330,7 @@ func runC07(c *Ctx) error {
 				opts.State = state
 			}
 			rs, pk, frame, rerr := hx.Run(e, t, opts)
-			in2 := map[string]interface{}{"shape": cl.shape.name, "pattern": cl.shape.pattern, "filter": cl.filter, "action": cl.action,
+			in2 := map[string]interface{}{"shape": cl.shape.name, "pattern": cl.shape.pattern, "filter": cl.filter, "action": cl.action, "shadowed_predeclared_target": cl.shadow,
 				"TruncateLen": cx.trunc, "GoVersion": cx.gover, "reused_state": cx.reuse}
 			if rerr != nil {
 				res.Errorf("c07: Run returned an error: %v", rerr)
